@@ -8,11 +8,16 @@ package main
 
 import (
 	"bytes"
+	"crypto/ecdsa"
+	"crypto/ed25519"
+	"crypto/elliptic"
 	"encoding/base64"
 	"encoding/hex"
 	"errors"
 	"fmt"
 	"math/big"
+	"reflect"
+	"sort"
 	"strings"
 	"time"
 
@@ -658,8 +663,8 @@ func execVerifyDS(f []string) vlib.Res {
 	// reference: which (DS, key) pairs does DNSKEY.ToDS authenticate
 	supAlg := map[uint8]bool{5: true, 7: true, 8: true, 10: true, 13: true, 14: true, 15: true}
 	refAny, refPlain, anySupported := false, false, false
-	refAnchored := map[*dns.DNSKEY]bool{}   // keys a supported DS authenticates, narrowings applied
-	mayAnchor := map[*dns.DNSKEY]bool{}     // keys any DS authenticates in the library's eyes
+	refAnchored := map[*dns.DNSKEY]bool{} // keys a supported DS authenticates, narrowings applied
+	mayAnchor := map[*dns.DNSKEY]bool{}   // keys any DS authenticates in the library's eyes
 	for _, d := range dss {
 		sup := (d.DigestType == 1 || d.DigestType == 2 || d.DigestType == 4) && supAlg[d.Algorithm]
 		anySupported = anySupported || sup
@@ -728,7 +733,22 @@ func execVerifyDS(f []string) vlib.Res {
 	if slow {
 		or = "FAIL sig=dsv/super-linear"
 	}
-	return vlib.Res{Impl: fmt.Sprintf("unsup=%s ok=%s", vlib.B(unsup), vlib.B(got)), Oracle: or, Tags: joinTags("nt", tag, tt, "err:"+errEnum(err))}
+	// which of the offered keys VerifyDSAnchoredWithWork anchored, by position
+	anch := "-"
+	if err3 == nil {
+		var idx []string
+		for i, k := range keys {
+			for _, ks := range anchored {
+				for _, a := range ks {
+					if a == k {
+						idx = append(idx, fmt.Sprint(i))
+					}
+				}
+			}
+		}
+		anch = strings.Join(idx, ".")
+	}
+	return vlib.Res{Impl: fmt.Sprintf("unsup=%s ok=%s anch=%s", vlib.B(unsup), vlib.B(got), anch), Oracle: or, Tags: joinTags("nt", tag, tt, "err:"+errEnum(err))}
 }
 
 // rsa vfy <alg> <pkhex> <signedhex> <hashedhex> <sighex>
@@ -882,19 +902,125 @@ func execBind(f []string) vlib.Res {
 	return vlib.Res{Impl: errEnum(err), Oracle: or, Tags: joinTags("nt", tag)}
 }
 
-// vfy sig k=<key> s=<sig> rr=<wires>
+// ---------------------------------------------------------------- oracle columns for the model
+
+// sigCols computes, with the standard library only, what the model takes as
+// oracles for one (key, signature, RRset): h = the digest of the RFC 4034
+// signed data under the algorithm's hash (RSA algorithms), x = the verdict of
+// the curve arithmetic for a key and signature of the RFC widths
+// (k = the key octets are not a point on the curve, t/f = ecdsa.Verify /
+// ed25519.Verify); "-" where the model must not ask.
+func sigCols(k *dns.DNSKEY, sig *dns.RRSIG, ws []wireRR) (h, x string) {
+	h, x = "-", "-"
+	sn, ok := packName(sig.SignerName)
+	if !ok || len(ws) == 0 {
+		return
+	}
+	data, ok := refSignedData(sigFieldsOf(sig), sn, ws)
+	if !ok {
+		return
+	}
+	kb, kerr := stdDecode(k.PublicKey)
+	sb, serr := stdDecode(sig.Signature)
+	switch sig.Algorithm {
+	case 5, 7, 8, 10:
+		h = vlib.Hex(refHash(sig.Algorithm, data))
+	case 13, 14:
+		curve, size := elliptic.P256(), 32
+		if sig.Algorithm == 14 {
+			curve, size = elliptic.P384(), 48
+		}
+		if kerr != nil || serr != nil || len(kb) != 2*size || len(sb) != 2*size {
+			return
+		}
+		pub, err := ecdsa.ParseUncompressedPublicKey(curve, append([]byte{4}, kb...))
+		if err != nil {
+			return h, "k"
+		}
+		x = vlib.B(ecdsa.Verify(pub, refHash(sig.Algorithm, data), new(big.Int).SetBytes(sb[:size]), new(big.Int).SetBytes(sb[size:])))
+	case 15:
+		if kerr != nil || serr != nil || len(kb) != ed25519.PublicKeySize || len(sb) != ed25519.SignatureSize {
+			return
+		}
+		x = vlib.B(ed25519.Verify(ed25519.PublicKey(kb), data, sb))
+	}
+	return
+}
+
+func signerWireCol(sig *dns.RRSIG) string {
+	sn, ok := packName(sig.SignerName)
+	if !ok {
+		return "-"
+	}
+	low, _, _ := lowerWireName(sn)
+	return vlib.Hex(low)
+}
+
+func ownersCol(ws []wireRR) string {
+	if len(ws) == 0 {
+		return "-"
+	}
+	parts := make([]string, len(ws))
+	for i, w := range ws {
+		s, _, err := dns.UnpackDomainName(w.owner, 0)
+		if err != nil {
+			return "-"
+		}
+		parts[i] = hexStr(s)
+	}
+	return strings.Join(parts, ",")
+}
+
+func canonCol(ws []wireRR) string {
+	if len(ws) == 0 {
+		return "-"
+	}
+	parts := make([]string, len(ws))
+	for i, w := range ws {
+		c, _ := canonRdata(w.typ, w.rdata)
+		parts[i] = vlib.Hex(c)
+	}
+	return strings.Join(parts, ",")
+}
+
+// guarded runs f and turns a panic of the code under test into a named failure.
+func guarded(entry string, f func()) (oracle string) {
+	defer func() {
+		if p := recover(); p != nil {
+			oracle = "FAIL sig=" + entry + "/panic " + strings.ReplaceAll(fmt.Sprint(p), "\n", " ")
+		}
+	}()
+	f()
+	return ""
+}
+
+// vfy sig k=<key> s=<sig> rr=<wires> o=<owner pres per record> c=<canonical RDATA per record> sw=<signer wire> h=<digest> x=<curve verdict>
 func execVerifySig(f []string) vlib.Res {
+	if len(f) != 10 {
+		return vlib.Res{Impl: "bad-op"}
+	}
 	k := parseKey(strings.TrimPrefix(f[2], "k="))
 	sig := parseSig(strings.TrimPrefix(f[3], "s="))
 	rrs, ws, ok := parseRRs(strings.TrimPrefix(f[4], "rr="))
 	if !ok {
 		return vlib.Res{Impl: "bad-op"}
 	}
+	h, x := sigCols(k, sig, ws)
+	if f[5] != "o="+ownersCol(ws) || f[6] != "c="+canonCol(ws) || f[7] != "sw="+signerWireCol(sig) || f[8] != "h="+h || f[9] != "x="+x {
+		return vlib.Res{Impl: "bad-op"}
+	}
 	var own, cv error
-	tt, slow := timed(func() { own = dnssec.VerifC14VerifySignature(k, sig, rrs) })
-	tt2, slow2 := timed(func() { cv = dnssec.VerifC14CryptoVerify(k, sig, rrs) })
+	var tt, tt2 string
+	var slow, slow2 bool
+	if o := guarded("vfy/verifySignature", func() {
+		tt, slow = timed(func() { own = dnssec.VerifC14VerifySignature(k, sig, rrs) })
+		tt2, slow2 = timed(func() { cv = dnssec.VerifC14CryptoVerify(k, sig, rrs) })
+	}); o != "" {
+		return vlib.Res{Impl: "panic", Oracle: o, Tags: "nt,panic"}
+	}
 	or, tag := judgeVerdict("vfy/cryptoVerify", cv == nil, k, sig, rrs, ws)
-	if dnssec.VerifC14VerifySignatureSupported(k.Algorithm) {
+	ownSup := dnssec.VerifC14VerifySignatureSupported(k.Algorithm)
+	if ownSup {
 		if (own == nil) != (cv == nil) {
 			or = "FAIL sig=vfy/dispatch/own-verifier-and-cryptoVerify-disagree"
 		}
@@ -905,75 +1031,216 @@ func execVerifySig(f []string) vlib.Res {
 		or = "FAIL sig=vfy/super-linear"
 	}
 	tt = worse(tt, tt2)
-	return vlib.Res{Impl: "own=" + errEnum(own) + " cv=" + errEnum(cv), Oracle: or, Tags: joinTags("nt", tag, tt, fmt.Sprintf("alg%d", sig.Algorithm))}
+	cvs := errEnum(cv)
+	if !ownSup { // the library's own error text is not modelled, only that it refuses
+		cvs = "lib:" + map[bool]string{true: "ok", false: "reject"}[cv == nil]
+	}
+	rrTag := ""
+	if len(ws) > 0 {
+		rrTag = fmt.Sprintf("rr%d", ws[0].typ)
+	}
+	return vlib.Res{Impl: "own=" + errEnum(own) + " cv=" + cvs, Oracle: or, Tags: joinTags("nt", tag, tt, fmt.Sprintf("alg%d", sig.Algorithm), "own:"+errEnum(own), rrTag)}
 }
 
-// vfy msg <zonepres-hex> <k;k> <s;s> <rr wires>
+type rrGroup struct {
+	name  string
+	typ   uint16
+	class uint16
+	idx   []int
+}
+
+// groupRRs is RFC 2181 §5 grouping: owner (case folded), type, class.
+func groupRRs(ws []wireRR) []rrGroup {
+	var gs []rrGroup
+	for i, w := range ws {
+		low, _, _ := lowerWireName(w.owner)
+		found := false
+		for j := range gs {
+			if gs[j].name == string(low) && gs[j].typ == w.typ && gs[j].class == w.class {
+				gs[j].idx = append(gs[j].idx, i)
+				found = true
+			}
+		}
+		if !found {
+			gs = append(gs, rrGroup{name: string(low), typ: w.typ, class: w.class, idx: []int{i}})
+		}
+	}
+	return gs
+}
+
+func groupOfSig(gs []rrGroup, sig *dns.RRSIG) int {
+	sn, ok := packName(sig.Hdr.Name)
+	if !ok {
+		return -1
+	}
+	low, _, _ := lowerWireName(sn)
+	for j, g := range gs {
+		if g.name == string(low) && g.typ == sig.TypeCovered && g.class == sig.Hdr.Class {
+			return j
+		}
+	}
+	return -1
+}
+
+func pick[T any](xs []T, idx []int) []T {
+	out := make([]T, len(idx))
+	for i, j := range idx {
+		out[i] = xs[j]
+	}
+	return out
+}
+
+// msgCols: per signature the signer wire, the validity verdict at `now`, and per key the (h, x) columns
+// relative to the RRset the signature is filed under.
+func msgCols(keys []*dns.DNSKEY, sigs []*dns.RRSIG, ws []wireRR, now int64) (sw, per, hx string) {
+	if len(sigs) == 0 {
+		return "-", "-", "-"
+	}
+	gs := groupRRs(ws)
+	var sws, pers, hxs []string
+	for _, s := range sigs {
+		sws = append(sws, signerWireCol(s))
+		pers = append(pers, vlib.B(int64(s.Inception) <= now && now <= int64(s.Expiration)))
+		var cols []string
+		g := groupOfSig(gs, s)
+		for _, k := range keys {
+			h, x := "-", "-"
+			if g >= 0 {
+				h, x = sigCols(k, s, pick(ws, gs[g].idx))
+			}
+			cols = append(cols, h+":"+x)
+		}
+		if len(cols) == 0 {
+			cols = []string{"-"}
+		}
+		hxs = append(hxs, strings.Join(cols, ","))
+	}
+	return strings.Join(sws, ";"), strings.Join(pers, ";"), strings.Join(hxs, ";")
+}
+
+// vfy msg z=<zonepres-hex> k=<k;k> s=<s;s> rr=<wires> a=<records in the answer section> o= c= sw= p= hx=
 func execVerifyMsg(f []string) vlib.Res {
-	zone := unStr(f[2])
+	if len(f) != 12 {
+		return vlib.Res{Impl: "bad-op"}
+	}
+	zone := unStr(strings.TrimPrefix(f[2], "z="))
 	var keys []*dns.DNSKEY
 	keyMap := map[uint16][]*dns.DNSKEY{}
-	for _, t := range splitList(f[3], ";") {
+	for _, t := range splitList(strings.TrimPrefix(f[3], "k="), ";") {
 		k := parseKey(t)
 		keys = append(keys, k)
 		tag := dnssec.KeyTag(k)
 		keyMap[tag] = append(keyMap[tag], k)
 	}
 	var sigs []*dns.RRSIG
-	for _, t := range splitList(f[4], ";") {
+	for _, t := range splitList(strings.TrimPrefix(f[4], "s="), ";") {
 		sigs = append(sigs, parseSig(t))
 	}
-	rrs, ws, ok := parseRRs(f[5])
-	if !ok || len(rrs) == 0 {
+	rrs, ws, ok := parseRRs(strings.TrimPrefix(f[5], "rr="))
+	if !ok {
+		return vlib.Res{Impl: "bad-op"}
+	}
+	nAns := vlib.Atoi(strings.TrimPrefix(f[6], "a="))
+	if nAns > len(rrs) {
+		return vlib.Res{Impl: "bad-op"}
+	}
+	now := time.Now().Unix()
+	sw, per, hx := msgCols(keys, sigs, ws, now)
+	if f[7] != "o="+ownersCol(ws) || f[8] != "c="+canonCol(ws) || f[9] != "sw="+sw || f[10] != "p="+per || f[11] != "hx="+hx {
 		return vlib.Res{Impl: "bad-op"}
 	}
 	msg := new(dns.Msg)
-	msg.Answer = append(msg.Answer, rrs...)
+	msg.Answer = append(msg.Answer, rrs[:nAns]...)
+	msg.Ns = append(msg.Ns, rrs[nAns:]...)
 	for _, s := range sigs {
 		msg.Answer = append(msg.Answer, s)
 	}
 	var good bool
 	var err error
-	tt, slow := timed(func() { good, err = dnssec.VerifyRRSIG(zone, keyMap, msg) })
+	var tt string
+	var slow bool
+	if o := guarded("vfy/VerifyRRSIG", func() {
+		tt, slow = timed(func() { good, err = dnssec.VerifyRRSIG(zone, keyMap, msg) })
+	}); o != "" {
+		return vlib.Res{Impl: "panic", Oracle: o, Tags: "nt,panic"}
+	}
 	got := good && err == nil
-	now := time.Now().Unix()
-	// reference: some signature within its validity period verifies under some offered key
-	refLib, refWide, strict := false, false, false
-	for _, s := range sigs {
-		if !(int64(s.Inception) <= now && now <= int64(s.Expiration)) {
-			continue
+
+	// reference, written from RFC 4035 §5.3: every RRset of the zone that has to be signed (answer
+	// records; authority records other than NS) is covered by a signature that is inside its validity
+	// period and verifies under an offered key; a record outside the zone in the answer section is fatal
+	zw, zok := packName(zone)
+	want, wantStrict := zok && len(keys) > 0, false
+	var need [][]int
+	if want {
+		var keep []int
+		for i, w := range ws {
+			inZone := labelSuffix(w.owner, zw)
+			auth := i >= nAns
+			switch {
+			case auth && w.typ == dns.TypeNS:
+			case !inZone && auth:
+			case !inZone:
+				want = false
+			default:
+				keep = append(keep, i)
+			}
 		}
-		for _, k := range keys {
-			o, t := judgeVerdict("x", true, k, s, rrs, ws)
-			if o == "ok" && t == "agree-accept" {
-				if len(strictReasons(k, s, ws)) > 0 {
-					strict = true
-				} else {
-					refLib = true
+		for _, g := range groupRRs(pick(ws, keep)) {
+			idx := make([]int, len(g.idx))
+			for a, b := range g.idx {
+				idx[a] = keep[b]
+			}
+			need = append(need, idx)
+		}
+	}
+	for _, idx := range need {
+		if !want {
+			break
+		}
+		set, wset := pick(rrs, idx), pick(ws, idx)
+		plain, strict := false, false
+		for _, s := range sigs {
+			if !(int64(s.Inception) <= now && now <= int64(s.Expiration)) {
+				continue
+			}
+			so, ok := packName(s.Hdr.Name)
+			if !ok || !wireEqualFold(so, wset[0].owner) || s.TypeCovered != wset[0].typ || s.Hdr.Class != wset[0].class || !labelSuffix(so, zw) {
+				continue
+			}
+			for _, k := range keys {
+				o, t := judgeVerdict("x", true, k, s, set, wset)
+				if o == "ok" && (t == "agree-accept" || t == "wide-exponent-accept") {
+					if len(strictReasons(k, s, wset)) > 0 {
+						strict = true
+					} else {
+						plain = true
+					}
 				}
 			}
-			if o == "ok" && t == "wide-exponent-accept" {
-				refWide = true
-			}
+		}
+		if !plain {
+			want = false
+			wantStrict = wantStrict || strict
 		}
 	}
 	or, tag := "ok", "agree-reject"
 	switch {
-	case got && !(refLib || refWide || strict):
+	case got && !want && !wantStrict:
 		or = "FAIL sig=vfy/VerifyRRSIG/accepts-unverifiable-rrset"
 		tag = "permissive"
-	case !got && (refLib || refWide):
+	case !got && want:
 		or = "FAIL sig=vfy/VerifyRRSIG/rejects-verifiable-rrset err=" + errEnum(err)
 		tag = "stricter"
 	case got:
 		tag = "agree-accept"
-	case strict:
+	case wantStrict:
 		tag = "stricter:documented"
 	}
 	if slow {
 		or = "FAIL sig=vfy/VerifyRRSIG/super-linear"
 	}
-	return vlib.Res{Impl: fmt.Sprintf("ok=%s err=%s", vlib.B(got), errEnum(err)), Oracle: or, Tags: joinTags("nt", tag, tt)}
+	return vlib.Res{Impl: "ok=" + vlib.B(got), Oracle: or, Tags: joinTags("nt", tag, tt, "err:"+errEnum(err), fmt.Sprintf("sets%d", min(len(need), 3)))}
 }
 
 // ---------------------------------------------------------------- facts
@@ -1011,6 +1278,7 @@ func facts() map[string]any {
 		p, _ := dnssec.VerifC14RSAPrefix(uint8(a))
 		prefixes = append(prefixes, ints(p))
 	}
+	foldAll, foldAny, nameTypes := rdataFoldTable()
 	none := func(x []int) []int {
 		if x == nil {
 			return []int{}
@@ -1018,21 +1286,87 @@ func facts() map[string]any {
 		return x
 	}
 	return map[string]any{
-		"key_tag_chunk":        chunk,
-		"max_ds_key_material":  maxMat,
-		"oversized_limit":      limit,
-		"min_rsa_modulus_bits": minBits,
-		"max_rsa_modulus_bits": maxBits,
-		"max_rsa_exponent_bits": maxExp,
-		"max_stdlib_exponent":  maxStd,
-		"ds_hash_types":        none(dsTypes),
-		"ds_hash_sizes":        none(dsSizes),
-		"ds_supported_types":   none(dsSupported),
-		"dnskey_algorithms":    none(algs),
+		"key_tag_chunk":           chunk,
+		"max_ds_key_material":     maxMat,
+		"oversized_limit":         limit,
+		"min_rsa_modulus_bits":    minBits,
+		"max_rsa_modulus_bits":    maxBits,
+		"max_rsa_exponent_bits":   maxExp,
+		"max_stdlib_exponent":     maxStd,
+		"ds_hash_types":           none(dsTypes),
+		"ds_hash_sizes":           none(dsSizes),
+		"ds_supported_types":      none(dsSupported),
+		"dnskey_algorithms":       none(algs),
 		"own_verifier_algorithms": none(ownAlgs),
-		"rsa_prefix_algorithms": none(prefixAlgs),
-		"rsa_prefixes":         prefixes,
+		"rsa_prefix_algorithms":   none(prefixAlgs),
+		"rsa_prefixes":            prefixes,
+		"rdata_fold_all":          none(foldAll),
+		"rdata_fold_any":          none(foldAny),
+		"rdata_name_types":        none(nameTypes),
 	}
+}
+
+// rdataFoldTable runs canonicalizeRdataNames over every record type the
+// library knows: each domain-name field of the RDATA (struct tag
+// "domain-name"/"cdomain-name", the header excluded) is set to a mixed-case
+// name; a type is in foldAll when every such field came back lowercased, in
+// foldAny when at least one did, in nameTypes when it has such a field.
+func rdataFoldTable() (foldAll, foldAny, nameTypes []int) {
+	const probe = "UPPER.Example."
+	var types []int
+	for t := range dns.TypeToRR {
+		types = append(types, int(t))
+	}
+	sort.Ints(types)
+	for _, t := range types {
+		rr := dns.TypeToRR[uint16(t)]()
+		var fields []reflect.Value
+		var walk func(v reflect.Value)
+		walk = func(v reflect.Value) {
+			for i := 0; i < v.NumField(); i++ {
+				f, sf := v.Field(i), v.Type().Field(i)
+				if sf.Name == "Hdr" {
+					continue
+				}
+				if sf.Anonymous && f.Kind() == reflect.Struct {
+					walk(f)
+					continue
+				}
+				if !strings.Contains(sf.Tag.Get("dns"), "domain-name") {
+					continue
+				}
+				switch f.Kind() {
+				case reflect.String:
+					f.SetString(probe)
+					fields = append(fields, f)
+				case reflect.Slice:
+					if f.Type().Elem().Kind() == reflect.String {
+						f.Set(reflect.ValueOf([]string{probe}))
+						fields = append(fields, f.Index(0))
+					}
+				}
+			}
+		}
+		walk(reflect.ValueOf(rr).Elem())
+		if len(fields) == 0 {
+			continue
+		}
+		nameTypes = append(nameTypes, t)
+		dnssec.VerifC14CanonicalizeRdataNames(rr)
+		folded := 0
+		for _, f := range fields {
+			if f.String() == strings.ToLower(probe) {
+				folded++
+			}
+		}
+		if folded == len(fields) {
+			foldAll = append(foldAll, t)
+		}
+		if folded > 0 {
+			foldAny = append(foldAny, t)
+		}
+	}
+	return
 }
 
 func main() { vlib.Main(&vlib.Driver{Facts: facts, Exec: exec, Gen: gen}) }
